@@ -249,7 +249,7 @@ pub struct Impl {
 pub struct BackendBlk {
     pub name: String,
     /// 0: `backend x { prologue …; epilogue …; }`, 1: `backend x prologue …;`,
-    /// 2: `backend x epilogue …;`
+    /// 2: `backend x epilogue …;`, 3: as 0 with the epilogue written first
     pub form: u8,
     pub prologue: Option<String>,
     pub epilogue: Option<String>,
@@ -533,13 +533,21 @@ pub fn print_mod(m: &Mod) -> String {
                     raw_str(b.epilogue.as_deref().unwrap_or(""))
                 );
             }
-            _ => {
+            f => {
                 let _ = writeln!(out, "backend {} {{", b.name);
+                // form 3: the braced block lists the epilogue before the prologue
+                if f == 3 {
+                    if let Some(p) = &b.epilogue {
+                        let _ = writeln!(out, "    epilogue {};", raw_str(p));
+                    }
+                }
                 if let Some(p) = &b.prologue {
                     let _ = writeln!(out, "    prologue {};", raw_str(p));
                 }
-                if let Some(p) = &b.epilogue {
-                    let _ = writeln!(out, "    epilogue {};", raw_str(p));
+                if f != 3 {
+                    if let Some(p) = &b.epilogue {
+                        let _ = writeln!(out, "    epilogue {};", raw_str(p));
+                    }
                 }
                 let _ = writeln!(out, "}}");
             }
